@@ -19,7 +19,7 @@ func init() {
 	core.Register(&core.Check{
 		ID:    "C05",
 		Level: "exploration",
-		Rule: "E-proc: histories that leave events and/or an error pending (burst larger than the buffer, rename-then-delete / rename-then-rmdir of watched files and directories with the reader held back, delete of a watched directory with contents, many watches, moves in from / out to / within with unmatched halves, watches spelled relative to the working directory that are then deleted/renamed, a recursive watch (not yet public; switched on through the hook) under which directories are created and removed again before the reader registers them, a real queue overflow with the consumer gated until the burst is complete and the control calls started only once the reader has reached the overflow record) " +
+		Rule: "E-proc: histories that leave events and/or an error pending (burst larger than the buffer, rename-then-delete / rename-then-rmdir of watched files and directories with the reader held back, delete of a watched directory with contents, many watches, moves in from / out to / within with unmatched halves, watches spelled relative to the working directory that are then deleted/renamed, a stream of renames that is consumed while 150 rounds of control calls run, a recursive watch (not yet public; switched on through the hook) under which directories are created and removed again before the reader registers them, a real queue overflow with the consumer gated until the burst is complete and the control calls started only once the reader has reached the overflow record) " +
 			"x consumer behaviour {both channels, only Events, only Errors, neither, stops after k} x buffer {default,0,1,64,4096}; then a battery of control calls (Add of a new path, WatchList, Remove, 1-8 concurrent Close with Add/Remove/WatchList racing them, Close twice) each under a watchdog, with PRNG delays injected at the verif yield points. " +
 			"Structural oracle: the lock probe at every send must find the Watcher's lock free (or held by a tracked API call); behavioural oracle: a control call that has not returned at the watchdog is a violation only when the goroutine dump shows the deadlock signature (a send parked below handleEvent/AddWith with the lock held and the call parked in Mutex.Lock; or the call parked on a channel/condition while the reader is parked in a send nobody receives; or - same state in two dumps 2 s apart - a goroutine running inside a lock-holding function while the call waits for the lock). " +
 			"distinct_nontrivial = distinct (history shape, consumer, buffer) cases in which >=1 send was probed",
@@ -31,7 +31,7 @@ func init() {
 	})
 }
 
-var c05shapes = []string{"burst", "rename-then-delete", "rename-then-rmdir", "delete-dir-with-contents", "many-watches", "overflow", "rename-delete-many", "moves-in-out-within", "relative-paths", "recursive-mkdir-rmdir"}
+var c05shapes = []string{"burst", "rename-then-delete", "rename-then-rmdir", "delete-dir-with-contents", "many-watches", "overflow", "rename-delete-many", "moves-in-out-within", "relative-paths", "recursive-mkdir-rmdir", "rename-stream"}
 var c05consumers = []string{"both", "only-events", "only-errors", "neither", "stops-after-k"}
 
 func runC05(c *core.Ctx) {
@@ -71,6 +71,9 @@ func c05Case(c *core.Ctx, rng *rand.Rand, dir string, idx int, a *apiTrack, st *
 	cons := c05consumers[rng.Intn(len(c05consumers))]
 	if shape == "overflow" { // the reader must get as far as the overflow record: Events is drained
 		cons = []string{"only-events", "both"}[(c.Batch/4)%2]
+	}
+	if shape == "rename-stream" {
+		cons = "both"
 	}
 	if shape == "recursive-mkdir-rmdir" {
 		// the (not yet public) recursive watch registers new directories from the reader goroutine;
@@ -175,7 +178,9 @@ func c05Case(c *core.Ctx, rng *rand.Rand, dir string, idx int, a *apiTrack, st *
 		if u := atomic.LoadInt64(&st.underLock) - under0; u > 0 {
 			c.Violate("send-under-lock", fmt.Sprintf("[%s] %d channel sends were performed while the Watcher's lock was held by the sender itself (no API call in flight); history %v", params, u, log), log)
 		}
-		if cls == "lock-leaked" {
+		if cls == "deadlock:lock-order" {
+			c.Violate("lock-order-deadlock", fmt.Sprintf("[%s] %s did not return: one goroutine waits for a second lock below a function that holds the Watcher's lock while the others wait for that one; history %v", params, what, log), dumpExcerpt(dump))
+		} else if cls == "lock-leaked" {
 			c.Violate("lock-never-released", fmt.Sprintf("[%s] %s did not return: goroutines wait for the Watcher's lock and no goroutine is inside a function that holds it; history %v", params, what, log), dumpExcerpt(dump))
 		} else if cls == "lock-holder-busy" {
 			c.Violate("lock-held-without-progress", fmt.Sprintf("[%s] %s did not return: a goroutine keeps running inside a function that holds the Watcher's lock (same state in two dumps 2 s apart, after the %v watchdog) while the call waits for that lock; history %v", params, what, twin.WatchdogTimeout, log), dumpExcerpt(dump))
@@ -193,6 +198,18 @@ func c05Case(c *core.Ctx, rng *rand.Rand, dir string, idx int, a *apiTrack, st *
 	}
 	api("Add(f)", func() error { return w.Add(f) })
 	api("Add(sub)", func() error { return w.Add(sub) })
+	var bgStop chan struct{}
+	var bgDone sync.WaitGroup
+	defer func() {
+		if bgStop != nil {
+			select {
+			case <-bgStop:
+			default:
+				close(bgStop)
+			}
+			bgDone.Wait()
+		}
+	}()
 	// --- the history that leaves things pending
 	switch shape {
 	case "burst":
@@ -266,6 +283,28 @@ func c05Case(c *core.Ctx, rng *rand.Rand, dir string, idx int, a *apiTrack, st *
 			}
 		}
 		time.Sleep(time.Duration(rng.Intn(3)) * time.Millisecond)
+	case "rename-stream":
+		// renames keep arriving (and are consumed) while the control calls run: the reader is inside its rename
+		// bookkeeping again and again while Add/Remove/WatchList take the lock
+		bgStop = make(chan struct{})
+		bgDone.Add(1)
+		go func() {
+			defer bgDone.Done()
+			pa, pb := filepath.Join(d, "ra"), filepath.Join(d, "rb")
+			os.WriteFile(pa, nil, 0o644)
+			for k := 0; ; k++ {
+				select {
+				case <-bgStop:
+					return
+				default:
+				}
+				if k%2 == 0 {
+					os.Rename(pa, pb)
+				} else {
+					os.Rename(pb, pa)
+				}
+			}
+		}()
 	case "relative-paths":
 		// watches spelled relative to the working directory (paths are stored as given), then deleted or
 		// renamed while the reader is held back: the reader's bookkeeping walks these spellings
@@ -351,12 +390,22 @@ func c05Case(c *core.Ctx, rng *rand.Rand, dir string, idx int, a *apiTrack, st *
 		{"AddWith(f,ops)", func() error { return w.AddWith(f, fsnotify.VerifWithOps(fsnotify.Write|fsnotify.Chmod)) }},
 	}
 	rng.Shuffle(len(calls), func(i, j int) { calls[i], calls[j] = calls[j], calls[i] })
-	for _, cl := range calls[:2+rng.Intn(6)] {
-		_, ok, dump := api(cl.n, cl.f)
-		if !ok {
-			return hung(cl.n, dump)
+	rounds := 1
+	if shape == "rename-stream" {
+		rounds = 150
+	}
+	for r := 0; r < rounds; r++ {
+		for _, cl := range calls[:2+rng.Intn(6)] {
+			_, ok, dump := api(cl.n, cl.f)
+			if !ok {
+				return hung(cl.n, dump)
+			}
+			c.Count("control_calls_returned", 1)
 		}
-		c.Count("control_calls_returned", 1)
+	}
+	if bgStop != nil {
+		close(bgStop)
+		bgDone.Wait()
 	}
 	// concurrent Close x 1..8 (with WatchList/Remove/Add racing them), then once more
 	nc := 1 + rng.Intn(8)
